@@ -241,6 +241,7 @@ impl Property for C05 {
                 let nops = AGREEING_OPS.len() as u64;
                 format!("chain:{}:{}:{}", i % nops, 2 + (i / nops) % 39, i / nops / 39)
             }),
+            Stream::new("array-declaration-roles", (2 * ARRAY_DECLS.len() * ARRAY_WRAPS.len()) as u64, true, |i| format!("arr:{i}")),
             Stream::new("empty-statement-bodies", (EMPTY_BODY_CASES.len() * EMPTY_BODY_WRAPS.len()) as u64, true, |i| format!("empty:{i}")),
             Stream::new("random-expression-trees", tier.pick(20_000, 1_000_000), false, move |i| format!("rexpr:{}", mix(&[seed, 0xC05, 1, i]))),
             Stream::new("random-programs-roles", tier.pick(15_000, 800_000), false, move |i| format!("roles:{}", mix(&[seed, 0xC05, 2, i]))),
@@ -330,6 +331,7 @@ impl Property for C05 {
                 run_cell(format!("chain/{}/len{}/{pos}", op.text(), if n < 8 { "<8" } else if n < 16 { "8..15" } else { ">=16" }), prog, 3, obs);
             }
             "empty" => empty_body_case(num(1) as usize, obs),
+            "arr" => array_decl_case(num(1) as usize, obs),
             "rexpr" => {
                 let mut r = Rng::new(num(1));
                 let mut g = MG::new(&mut r, GenCfg { unique_leaves: true, ..GenCfg::syntax() });
@@ -375,6 +377,87 @@ const EMPTY_BODY_CASES: &[(&str, &str, bool, &str, bool)] = &[
     ("if (c) /* then */ ; /* between */ else /* else */ y q;", "", false, "y q;", false),
 ];
 const EMPTY_BODY_WRAPS: &[(&str, &str)] = &[("", ""), ("while (w) { ", " }"), ("gate gg qq { ", " }"), ("x q0; ", " z q1;")];
+
+/// Array declarations (the statement model has no array types): const flag, element type, dimensions,
+/// name and initializer read through the accessors of ClassicalDeclarationStatement.
+/// (element type, dimension list, number of elements of a flat brace initializer or 0 for none / 100+n for n nested rows)
+const ARRAY_DECLS: &[(&str, &str, usize)] = &[
+    ("int[8]", "1", 1), ("int[8]", "2", 2), ("int[8]", "3", 3), ("float[64]", "1", 1), ("uint", "4", 0), ("bool", "2", 2), ("angle[16]", "1", 1),
+    ("int[8]", "2, 2", 102), ("float[32]", "1, 1", 101), ("complex[float[64]]", "2", 2), ("duration", "1", 1), ("bit", "3", 3),
+];
+const ARRAY_WRAPS: &[(&str, &str)] = &[("", ""), ("if (c) { ", " }"), ("def f() { ", " }"), ("x q0; ", " z q1;")];
+
+fn array_decl_case(i: usize, obs: &mut Obs) {
+    use oq3_syntax::ast::{self, AstNode, HasName};
+    use oq3_syntax::HasTextNode;
+    let konst = i % 2 == 1;
+    let (elem, dims, ninit) = ARRAY_DECLS[(i / 2) % ARRAY_DECLS.len()];
+    let (pre, post) = ARRAY_WRAPS[(i / 2 / ARRAY_DECLS.len()) % ARRAY_WRAPS.len()];
+    let elems = |n: usize| (0..n).map(|k| (k + 5).to_string()).collect::<Vec<_>>().join(", ");
+    let init = match ninit {
+        0 => String::new(),
+        n if n >= 100 => format!(" = {{{}}}", (0..n - 100).map(|_| format!("{{{}}}", elems(dims.split(',').last().unwrap().trim().parse().unwrap_or(1)))).collect::<Vec<_>>().join(", ")),
+        n => format!(" = {{{}}}", elems(n)),
+    };
+    let text = format!("{pre}{}array[{elem}, {dims}] arr{init};{post}\n", if konst { "const " } else { "" });
+    obs.fp.str(&text);
+    let r = guard(|| {
+        let p = oq3_syntax::SourceFile::parse(&text);
+        if !p.errors().is_empty() {
+            return Err(format!("{:?}", p.errors().iter().map(|e| e.to_string()).collect::<Vec<_>>()));
+        }
+        let ds: Vec<ast::ClassicalDeclarationStatement> = p.syntax_node().descendants().filter_map(ast::ClassicalDeclarationStatement::cast).collect();
+        let mut bad: Vec<(String, String)> = Vec::new();
+        let Some(d) = ds.first() else { return Ok(vec![("declaration-found".to_string(), "no ClassicalDeclarationStatement node".to_string())]) };
+        if d.const_token().is_some() != konst {
+            bad.push(("const".into(), format!("const_token present: {}", d.const_token().is_some())));
+        }
+        match d.array_type() {
+            None => bad.push(("array-type".into(), "array_type() is None".into())),
+            Some(at) => {
+                let et = at.scalar_type().map(|t| t.syntax().text().to_string().replace(' ', "")).unwrap_or_default();
+                if et != elem {
+                    bad.push(("element-type".into(), format!("{et:?} vs {elem:?}")));
+                }
+                // (the generated accessors `expression_list()` of ArrayType / ArrayLiteral have no node to
+                // return in the trees this parser builds - arrays are a stub in this front end; the
+                // constituents are counted as child expressions instead)
+                let nd = at.syntax().children().filter_map(ast::Expr::cast).count();
+                if nd != dims.split(',').count() {
+                    bad.push(("dimensions".into(), format!("{nd} dimension expressions, written {dims:?}")));
+                }
+            }
+        }
+        let name = d.name().map(|n| n.string()).unwrap_or_default();
+        if name != "arr" {
+            bad.push(("name".into(), format!("{name:?}")));
+        }
+        let want_n = if ninit >= 100 { ninit - 100 } else { ninit };
+        match (ninit, d.expr()) {
+            (0, None) => {}
+            (0, Some(e)) => bad.push(("initializer".into(), format!("no initializer written, expr() = {:?}", e.syntax().text().to_string()))),
+            (_, Some(ast::Expr::ArrayLiteral(al))) => {
+                let n = al.syntax().children().filter_map(ast::Expr::cast).count();
+                if n != want_n {
+                    bad.push(("initializer-elements".into(), format!("{n} elements, written {want_n}")));
+                }
+            }
+            (_, other) => bad.push(("initializer".into(), format!("expr() is not an array literal: {:?}", other.map(|e| format!("{:?} {:?}", e.syntax().kind(), e.syntax().text().to_string()))))),
+        }
+        Ok(bad)
+    });
+    match r {
+        Err(p) => obs.inconclusive(format!("parse or accessor panicked: {}", p.site())),
+        Ok(Err(msgs)) => obs.inconclusive(format!("rejected by the parser (C04): {msgs}")),
+        Ok(Ok(bad)) => {
+            for (k, d) in bad {
+                obs.violate(format!("role/array-declaration/{k}/{}{}", if konst { "const-" } else { "" }, if ninit >= 100 { "nested".to_string() } else { format!("{ninit}-elements") }), format!("{text:?}: {d}"));
+            }
+            obs.class("array-declaration");
+            obs.done(true);
+        }
+    }
+}
 
 fn empty_body_case(i: usize, obs: &mut Obs) {
     use oq3_syntax::ast::{self, AstNode};
